@@ -769,6 +769,15 @@ def cases(rng, tier):
                   ([6, 5, 4, 3, 2, 1], 1037232), ([7, 6, 5, 4, 3, 2, 1], -9834496)):
         if len(f) <= 6 or th: out.append(single_case(f, dK, 'known'))
     if th: out.append(single_case([8, 7, 6, 5, 4, 3, 2, 1], -241864704, 'known'))
+    # every prime q < 260 (quick: a rotating third of them plus all q = 1 mod 30) as the index: x^2 - k q^2 has discriminant 4 k q^2,
+    # the field discriminant is quad_disc(k) and Round 2 must run at q (a trial division that skips a residue class of divisors,
+    # or mishandles one prime, leaves that q^2 in the discriminant)
+    qs = [q for q in range(3, 260, 2) if all(q % d for d in range(3, int(q ** 0.5) + 1, 2))]
+    for i, q in enumerate(qs):
+        if th or q % 30 == 1 or i % 3 == rng.randrange(3):
+            k = rng.choice([2, 3, -1, 5, -7])
+            if k % q == 0: k = 2
+            out.append(single_case([-k * q * q, 0, 1], quad_disc(k), 'index-prime-q'))
     # random irreducible
     rb = []
     plan = [(2, 9, 40), (3, 9, 60), (4, 5, 60), (5, 3, 24), (6, 2, 8)] if not th else [(2, 9, 120), (3, 9, 200), (4, 6, 200), (5, 4, 90), (6, 3, 40)]
